@@ -620,13 +620,31 @@ fn algo_case(e: &GraphEngine, s: &Snap, tag: &str, k: &mut Kinds, dist: &mut Dis
         }
         _ => "None".into(),
     };
-    // k-core decomposition
-    let kc = guarded(std::panic::AssertUnwindSafe(|| e.kcore_decomposition(&KCoreConfig::new().undirected())));
+    // k-core decomposition: core numbers, degeneracy (both entry points), the `cores` grouping, and
+    // kcore_subgraph(k) (= get_kcore) for every k from 0 to the number of nodes
+    let kcfg = KCoreConfig::new().undirected();
+    let kc = guarded(std::panic::AssertUnwindSafe(|| e.kcore_decomposition(&kcfg)));
     let kc_t = match kc {
         Ok(Ok(r)) => {
             let mut v: Vec<(u64, u64)> = r.core_numbers.iter().map(|(a, c)| (*a, *c as u64)).collect();
             v.sort();
-            format!("(Some ({}, {}))", pairs_coq(&v), r.degeneracy)
+            let mut grouped_ok = r.cores.values().map(|m| m.len()).sum::<usize>() == r.core_numbers.len();
+            for (c, members) in &r.cores {
+                grouped_ok &= members.iter().all(|m| r.core_numbers.get(m) == Some(c));
+            }
+            let deg2 = e.degeneracy(&kcfg).map(|d| d as u64).unwrap_or(u64::MAX);
+            let mut per_k = vec![];
+            for kk in 0..=(s.nodes.len() as u64) {
+                let mut sub = e.kcore_subgraph(kk as usize, &kcfg).unwrap_or_else(|_| vec![u64::MAX]);
+                sub.sort();
+                let mut shell = r.shell(kk as usize);
+                shell.sort();
+                per_k.push(format!("({}, {}, {})", kk, nl(&sub), nl(&shell)));
+            }
+            if r.degeneracy >= 2 {
+                dist.hit("algo.graph_with_degeneracy_ge_2");
+            }
+            format!("(Some ({}, {}, {}, {}, {}))", pairs_coq(&v), r.degeneracy, deg2, b(grouped_ok), list(per_k))
         }
         _ => "None".into(),
     };
@@ -663,6 +681,146 @@ fn algo_case(e: &GraphEngine, s: &Snap, tag: &str, k: &mut Kinds, dist: &mut Dis
     let term = format!("({}, {}, {}, {}, {}, {}, {})", s.coq(), scc_t, wcc_t, mst_t, kc_t, tr_t, bc_t);
     let human = format!("{tag} algorithms(scc,wcc,mst,kcore,triangles,biconnected) graph: {}", s.human());
     k.algo.push(&term, &human, s.edges.len() >= 3);
+}
+
+/// only the algorithm library (cheap): used for the many small structured graphs
+fn run_algo_only(ops: &[BOp], tag: &str, k: &mut Kinds, dist: &mut Dist) {
+    let e = build(ops);
+    let s = snapshot(&e);
+    algo_case(&e, &s, &format!("{tag} script={:?};", ops), k, dist);
+}
+
+fn und(f: u64, t: u64) -> BOp {
+    BOp::Edge(f, t, false, 0, Some(1), None)
+}
+
+/// Small graphs (6-12 nodes, a few up to 16) that separate peeling / DFS orders: dense cores
+/// (cliques, near-cliques) whose edges are subdivided by low-degree nodes, pendant leaves and
+/// trees hanging off core and subdivision nodes, cliques joined by paths, stars on cliques,
+/// extra random chords, parallel edges, self-loops; direction and weights randomised.
+fn gen_structured(r: &mut Rng, dist: &mut Dist) -> Vec<BOp> {
+    let mut edges: Vec<(u64, u64)> = vec![];
+    let mut n: u64 = 0;
+    let clique = |edges: &mut Vec<(u64, u64)>, n: &mut u64, size: u64| -> Vec<u64> {
+        let ids: Vec<u64> = (1..=size).map(|i| *n + i).collect();
+        *n += size;
+        for i in 0..ids.len() {
+            for j in i + 1..ids.len() {
+                edges.push((ids[i], ids[j]));
+            }
+        }
+        ids
+    };
+    let family = r.below(5);
+    dist.hit(["algo.family.subdivided_core_with_pendants", "algo.family.cliques_joined_by_path", "algo.family.star_on_clique", "algo.family.two_cores_shared_node", "algo.family.random_dense_small"][family as usize]);
+    let mut cores: Vec<Vec<u64>> = vec![];
+    match family {
+        0 => {
+            cores.push(clique(&mut edges, &mut n, r.range(3, 5)));
+        }
+        1 => {
+            let a = clique(&mut edges, &mut n, r.range(3, 4));
+            let bb = clique(&mut edges, &mut n, r.range(3, 4));
+            let mut prev = *r.pick(&a);
+            for _ in 0..r.range(0, 3) {
+                n += 1;
+                edges.push((prev, n));
+                prev = n;
+            }
+            edges.push((prev, *r.pick(&bb)));
+            cores.push(a);
+            cores.push(bb);
+        }
+        2 => {
+            let a = clique(&mut edges, &mut n, r.range(3, 5));
+            let hub = *r.pick(&a);
+            for _ in 0..r.range(2, 5) {
+                n += 1;
+                edges.push((hub, n));
+            }
+            cores.push(a);
+        }
+        3 => {
+            let a = clique(&mut edges, &mut n, r.range(3, 4));
+            let size = r.range(3, 4);
+            let shared = *r.pick(&a);
+            let mut bb = vec![shared];
+            for _ in 1..size {
+                n += 1;
+                bb.push(n);
+            }
+            for i in 0..bb.len() {
+                for j in i + 1..bb.len() {
+                    edges.push((bb[i], bb[j]));
+                }
+            }
+            cores.push(a);
+            cores.push(bb);
+        }
+        _ => {
+            n = r.range(5, 9);
+            for i in 1..=n {
+                for j in i + 1..=n {
+                    if r.chance(1, 2) {
+                        edges.push((i, j));
+                    }
+                }
+            }
+        }
+    }
+    // subdivide some core edges; the subdividing node may carry pendant leaves (inflated degree)
+    let nsub = r.below(4);
+    for _ in 0..nsub {
+        if edges.is_empty() {
+            break;
+        }
+        let i = r.below(edges.len() as u64) as usize;
+        let (a, bb) = edges.remove(i);
+        n += 1;
+        let u = n;
+        edges.push((a, u));
+        edges.push((u, bb));
+        for _ in 0..r.below(4) {
+            n += 1;
+            edges.push((u, n));
+        }
+    }
+    // pendant leaves / short trees on random nodes
+    for _ in 0..r.below(4) {
+        if n == 0 {
+            break;
+        }
+        let mut at = r.range(1, n);
+        for _ in 0..r.range(1, 2) {
+            n += 1;
+            edges.push((at, n));
+            at = n;
+        }
+    }
+    // a few random chords, parallel edges and self-loops
+    for _ in 0..r.below(3) {
+        if n >= 2 {
+            edges.push((r.range(1, n), r.range(1, n)));
+        }
+    }
+    if r.chance(1, 4) && !edges.is_empty() {
+        let (a, bb) = *r.pick(&edges);
+        edges.push((bb, a));
+    }
+    r.shuffle(&mut edges);
+    let dirmode = r.below(3);
+    let mut ops: Vec<BOp> = (0..n).map(|_| BOp::Node(Some(0))).collect();
+    for (a, bb) in edges {
+        let d = match dirmode {
+            0 => false,
+            1 => true,
+            _ => r.chance(1, 2),
+        };
+        let (f, t) = if r.chance(1, 2) { (a, bb) } else { (bb, a) };
+        ops.push(BOp::Edge(f, t, d, r.below(2), if r.chance(1, 4) { None } else { Some(r.below(4)) }, None));
+    }
+    let _ = cores;
+    ops
 }
 
 fn run_graph(r: &mut Rng, ops: &[BOp], tag: &str, k: &mut Kinds, dist: &mut Dist, light: bool) {
@@ -748,6 +906,32 @@ fn main() {
     ];
     for (tag, ops) in &corpus {
         run_graph(&mut rng, ops, tag, &mut k, &mut dist, false);
+    }
+    // algorithm-library corpus: graphs on which peeling / DFS orders matter
+    let algo_corpus: Vec<(&str, Vec<(u64, u64)>, u64)> = vec![
+        // K4 on 1..4 with edge 1-2 subdivided by 5; 5 also carries the leaves 6 and 7 (all cores 2 except leaves)
+        ("corpus kcore K4-subdivided-with-leaves", vec![(1, 3), (1, 4), (2, 3), (2, 4), (3, 4), (1, 5), (5, 2), (5, 6), (5, 7)], 7),
+        // K5 with two subdivided edges, one subdivider with three leaves
+        ("corpus kcore K5-two-subdivisions", vec![(1, 3), (1, 4), (1, 5), (2, 3), (2, 4), (2, 5), (3, 5), (4, 5), (1, 6), (6, 2), (3, 7), (7, 4), (6, 8), (6, 9), (6, 10)], 10),
+        // two triangles joined by a path, a star on one corner
+        ("corpus cliques-joined-by-path", vec![(1, 2), (2, 3), (1, 3), (3, 4), (4, 5), (5, 6), (6, 7), (5, 7), (1, 8), (1, 9), (1, 10)], 10),
+        // K4 whose DFS meets back edges that do not lower low[u]; plus a pendant
+        ("corpus K4-plus-pendant", vec![(1, 2), (1, 3), (1, 4), (2, 3), (2, 4), (3, 4), (4, 5)], 5),
+    ];
+    for (tag, es, nn) in &algo_corpus {
+        for directed in [false, true] {
+            let mut ops: Vec<BOp> = (0..*nn).map(|_| BOp::Node(Some(0))).collect();
+            for (a, bb) in es {
+                ops.push(BOp::Edge(*a, *bb, directed, 0, Some(1), None));
+            }
+            run_algo_only(&ops, tag, &mut k, &mut dist);
+        }
+    }
+    let _ = und;
+    let nstructured = args.budget(260, 6000);
+    for i in 0..nstructured {
+        let ops = gen_structured(&mut rng, &mut dist);
+        run_algo_only(&ops, &format!("structured#{i}"), &mut k, &mut dist);
     }
 
     // --- seeded random multigraphs ------------------------------------------------------------
